@@ -339,6 +339,10 @@ def _to_float(x):
 
 def floor(a):
     def f(x):
+        if getattr(type(x), "_fp", False):
+            from . import fp
+
+            return fp.floor(x)
         x = _to_float(x)
         if not x.sym:
             return _mk(type(x), float(math.floor(x.v)) if math.isfinite(x.v) else x.v)
@@ -349,6 +353,10 @@ def floor(a):
 
 def ceil(a):
     def f(x):
+        if getattr(type(x), "_fp", False):
+            from . import fp
+
+            return fp.ceil(x)
         x = _to_float(x)
         if not x.sym:
             return _mk(type(x), float(math.ceil(x.v)) if math.isfinite(x.v) else x.v)
@@ -379,6 +387,8 @@ def negative(a):
 
 def isnan(a):
     def f(x):
+        if getattr(type(x), "_fp", False):
+            return _mk(S.bool_, False)  # NaN excluded by assumption in FP-mode
         if x._kind != "f":
             return _mk(S.bool_, False)
         if x.nan is not None:
